@@ -2,14 +2,15 @@
 // scripted io.Reader (chosen chunk sizes) and writes a trace for the Coq runner (runner/Face/driver.ml).
 //
 // Trace / corpus format (one case):
-//   CASE <id> <kind>
-//   S <hex>            stream bytes (several S lines are concatenated)
-//   R <items>          read schedule: "k" (a Read returning at most k bytes), "k*n" (n such reads), "!" (a Read returning 0 bytes
-//                      and an error that ignoreError accepts).  After the schedule the reader returns io.EOF.
-//   B <lens>           lengths of the generated blocks ("-" for adversarial streams without a block structure)
-//   I <result> <consumed>   implementation: ok | err:toomuch | err:other | panic | spin ; bytes consumed from the scripted reader
-//   F <len>:<md5/8> ...     frames handed to onFrame, in order (several F lines)
-//   END
+//
+//	CASE <id> <kind>
+//	S <hex>            stream bytes (several S lines are concatenated)
+//	R <items>          read schedule: "k" (a Read returning at most k bytes), "k*n" (n such reads), "!" (a Read returning 0 bytes
+//	                   and an error that ignoreError accepts).  After the schedule the reader returns io.EOF.
+//	B <lens>           lengths of the generated blocks ("-" for adversarial streams without a block structure)
+//	I <result> <consumed>   implementation: ok | err:toomuch | err:other | panic | spin ; bytes consumed from the scripted reader
+//	F <len>:<md5/8> ...     frames handed to onFrame, in order (several F lines)
+//	END
 package facelp
 
 import (
